@@ -49,7 +49,7 @@ Lemma search_max l key r : sorted_starts l -> search l key false = Some r ->
   In r l /\ r_contains r key = true /\ forall x, In x l -> lex_leb (r_start x) key = true -> lex_leb (r_start x) (r_start r) = true.
 Proof.
   intros Hs H. split; [eapply search_in; exact H|]. split; [exact (search_contains _ _ false _ H)|].
-  unfold search in H. intros x Hx Hle.
+  unfold search in H. cbn [andb] in H. intros x Hx Hle.
   assert (Hxi : In x (le_items l key)) by (apply filter_In; split; assumption).
   destruct (rev (le_items l key)) as [|y rest] eqn:Er; [discriminate|]. cbn [search_desc andb] in H.
   destruct (r_contains y key); [|discriminate]. injection H as <-.
